@@ -321,6 +321,25 @@ def check_pytree_roundtrip(ck):
             ck.prove(f"pytree_roundtrip.{oname}.{fname}", stubs.contracts(it), conj([eq_arr(o1[a], o2[b]) for a, b in zip(t1.out_names, t2.out_names)]), replay=rp)
 
 
+def donated_calls(jaxpr):
+    """names of the jit calls inside a traced program that donate one of their argument buffers (an EAGER call of such a function invalidates the
+    caller's arrays -- the explicit arguments would not survive the call -- while the same call under an enclosing jit does not)"""
+    found = []
+
+    def walk(j):
+        for e in j.eqns:
+            d = e.params.get("donated_invars")
+            if d is not None and any(d):
+                found.append(str(e.params.get("name")))
+            for v in e.params.values():
+                for sub in (v if isinstance(v, (tuple, list)) else [v]):
+                    jj = getattr(sub, "jaxpr", sub)
+                    if hasattr(jj, "eqns"):
+                        walk(jj)
+    walk(jaxpr)
+    return found
+
+
 def check_env_transparency(ck):
     """every component of the classic-control environments: traced without Python branching on values, and vmap(f)(xs)[i] == f(xs[i])"""
     from lerax.env.classic_control import Acrobot, CartPole, ContinuousMountainCar, MountainCar, Pendulum
@@ -358,6 +377,8 @@ def check_env_transparency(ck):
             ck.fact(f"nofork.{ename}.{cname}", traced_ok, "traces without converting a traced value to a Python bool (eager and jit run the same primitive sequence)")
             if not traced_ok:
                 continue
+            dn = donated_calls(tr1.jaxpr)
+            ck.fact(f"arguments_survive.{ename}.{cname}", not dn, f"jit calls inside the component that donate argument buffers: {dn[:4]}")
             # depends only on its explicit arguments: a second, independent trace yields the same program with the same captured constants
             with stubs.ode_stub(), stubs.prng_stubs():
                 tr1b = trace(lambda *a, f=f: f(env, *a), *ex, argnames=argn, label=f"{ename}.{cname}")
@@ -510,6 +531,8 @@ def check_mujoco_transparency(ck, names):
                 ck.fact(f"nofork.{ename}.{cname}", ok, "traces without converting a traced value to a Python bool")
                 if not ok:
                     continue
+                dn = donated_calls(tr1.jaxpr)
+                ck.fact(f"arguments_survive.{ename}.{cname}", not dn, f"jit calls inside the component that donate argument buffers: {dn[:4]}")
                 itB = Interp()
                 SBt = trB.symbols(itB)
                 outB = trB.run(itB, SBt)
